@@ -139,6 +139,7 @@ structure St where
   nLines : Nat := 0
   nChecks : Nat := 0
   nVerify : Nat := 0
+  nInputs : Nat := 0
 
 def St.emit (s : St) (l : String) : St := { s with out := s.out.push l }
 def St.diff (s : St) (field model impl : String) : St :=
@@ -210,7 +211,14 @@ def checkAcc (d : DS) (s : St) (o : Obs) (t : Toks) (mi : Option (Bytes × Bool)
   let c (s : St) (k model : String) : St :=
     let impl := tget t k
     if impl == "panic" then (s.prop "C03" s!"no_panic_{k}" "").chk
-    else s.cmp s!"acc.{k}" model impl
+    else if model == impl then s.chk
+    else
+      -- the model accessor *is* the statement "reports a value exactly when the raw RLP is the
+      -- canonical encoding of such a value": a disagreement is a failure of that property
+      let owner := if k == "text" || k == "disp" then "C12"
+        else if k == "pk" || k == "pkkey" || k == "nidpk" then "C10"
+        else if k == "conv" || k == "dbg" then "C03" else "C14"
+      (s.diff s!"acc.{k}" model impl).prop owner s!"accessor_{k}_agrees_with_raw_content" s!"want={model} got={impl} pairs={showPairs r.content}"
   let s := c s "id" (optHex r.id)
   let s := c s "ip4" (optHex r.ip4)
   let s := c s "ip6" (optHex r.ip6)
@@ -773,15 +781,35 @@ def handleNid (s : St) (t : Toks) : St :=
   | "new" =>
     -- raw / as_ref / From / PartialEq all return the 32 bytes
     let s := s.cmp "nid.new" (hex inp) out
-    s.cmp "nid.conv" "1" (tget t "conv")
-  | "ser" => s.cmp "nid.ser" (hex ([34] ++ (NodeId.ser ⟨inp⟩) ++ [34])) out
+    let s := s.cmp "nid.conv" "1" (tget t "conv")
+    if out == hex inp && tget t "conv" == "1" then s.chk else s.prop "C16" "accessors_return_the_32_bytes" s!"in={hex inp} out={out}"
+  | "ser" =>
+    let s := s.cmp "nid.ser" (hex ([34] ++ (NodeId.ser ⟨inp⟩) ++ [34])) out
+    let o := unhex out
+    let digits := (o.drop 3).take 64
+    if o.length == 68 && o.take 3 == [34, 48, 120] && o.drop 67 == [34] && digits.all (fun c => isLowerHexChar c)
+        && packHex digits == inp then s.chk
+    else s.prop "C16" "json_form_is_0x_and_64_lowercase_hex" s!"out={out}"
   | "deser" =>
     let m := match NodeId.deser inp with
       | some id => hex id.raw
       | none => "err"
-    s.cmp "nid.deser" m out
-  | "debug" => s.cmp "nid.debug" (hex (NodeId.debug ⟨inp⟩)) out
-  | "display" => s.cmp "nid.display" (hex (NodeId.display ⟨inp⟩)) out
+    let s := s.cmp "nid.deser" m out
+    -- accepted exactly when, after at most one leading "0x", 64 hex digits remain
+    let body := if inp.take 2 == [48, 120] then inp.drop 2 else inp
+    let good := body.length == 64 && body.all (fun c => isHexChar c)
+    if out == "panic" then s
+    else if good && out == "err" then s.prop "C16" "deser_accepts_64_hex_digits" s!"in={hex inp}"
+    else if !good && out != "err" then s.prop "C16" "deser_accepts_only_64_hex_digits" s!"in={hex inp}"
+    else if good && out != hex (packHex body) then s.prop "C16" "deser_yields_the_digits_value" s!"in={hex inp} out={out}"
+    else s.chk
+  | "debug" =>
+    let s := s.cmp "nid.debug" (hex (NodeId.debug ⟨inp⟩)) out
+    if unhex out == [48, 120] ++ hexLower inp then s.chk else s.prop "C16" "debug_is_full_0x_hex" s!"out={out}"
+  | "display" =>
+    let s := s.cmp "nid.display" (hex (NodeId.display ⟨inp⟩)) out
+    if unhex out == [48, 120] ++ hexLower (inp.take 2) ++ [46, 46] ++ hexLower (inp.drop 30) then s.chk
+    else s.prop "C16" "display_is_first_and_last_two_bytes" s!"out={out}"
   | _ => s
 
 def handleCk (s : St) (t : Toks) : St :=
@@ -924,6 +952,7 @@ def feed (a : Acc) (line : String) : Acc :=
     { a with st := { a.st with keys := a.st.keys.push (unhex (tget t "pub")) } }
   | "dec" | "txt" | "json" | "decmany" | "declist" | "init" | "step" =>
     let a := flushAcc a
+    let a := { a with st := { a.st with nInputs := a.st.nInputs + 1 } }
     let ctx := if head == "init" || head == "step" then a.st.ctx else s!"{head}/{tget t "scheme"}/{tget t "tag"}"
     { a with st := { a.st with pend := some (head, t), ctx := ctx } }
   | "out" => { a with st := { a.st with pendOut := some t } }
@@ -931,9 +960,11 @@ def feed (a : Acc) (line : String) : Acc :=
   | "acc" => { a with acc := some t }
   | "nid" =>
     let a := flushAcc a
+    let a := { a with st := { a.st with nInputs := a.st.nInputs + 1 } }
     { a with st := handleNid { a.st with ctx := s!"nid/{tget t "op"}" } t }
   | "ck" =>
     let a := flushAcc a
+    let a := { a with st := { a.st with nInputs := a.st.nInputs + 1 } }
     { a with st := handleCk { a.st with ctx := s!"ck/{tget t "kind"}" } t }
   | "end" =>
     let a := flushAcc a
@@ -943,6 +974,7 @@ def feed (a : Acc) (line : String) : Acc :=
 def finish (a : Acc) : St :=
   let s := flushGroup (flushAcc a).st
   let s := s.emit s!"STAT lines {s.nLines}"
+  let s := s.emit s!"STAT inputs {s.nInputs}"
   let s := s.emit s!"STAT checks {s.nChecks}"
   let s := s.emit s!"STAT verifications {s.nVerify}"
   let s := s.emit s!"STAT diffs {s.nDiff}"
